@@ -15,12 +15,25 @@ void fpApplyH(const json &in, json &out) {
     const Factors<F> fs(in, g);
     withOrder(ja.at("o").get<size_t>(), [&](auto O) {
       constexpr size_t o = decltype(O)::value;
-      if constexpr (o <= 3) {
+      if constexpr (o <= 6) {   // operand orders up to 6 (results up to 9)
         const Spline<F, o> a = mkSpline<F, o>(ja, g);
         const auto e = E::template make<F>(fs);
         cmpSpline(acc, e * a, in.at("E").at("app"), in.at("S").at("app"), "app");
-        const bspline::integration::LinearForm lf{E::template make<F>(fs)};
-        acc.cmp(lf(a), ratQ(in.at("E").at("lf")), ratQ(in.at("S").at("lf")), "lf");
+        if (in.at("E").contains("lf")) {
+          const bspline::integration::LinearForm lf{E::template make<F>(fs)};
+          acc.cmp(lf(a), ratQ(in.at("E").at("lf")), ratQ(in.at("S").at("lf")), "lf");
+        }
+        // second pass: full-mantissa coefficients, exact twin as reference (see vh_fp.h)
+        if constexpr (E::exactable) try {
+          const Grid<Rat> gr = mkGrid<Rat>(ja.at("g"));
+          const Factors<Rat> fsr(in, gr);
+          const auto ap = perturbedSpline(a, caseKey(in));
+          const auto ar = exactTwin(ap, gr);
+          const auto er = E::template make<Rat>(fsr);
+          cmpSplineTwin(acc, e * ap, er * ar, in.at("S").at("app"), "papp");
+        } catch (const RatError &) {
+          // the exact twin left its 128-bit integers: this case has no perturbed pass
+        }
       }
     });
   });
